@@ -106,6 +106,35 @@ var fixedPlans = map[string]plan{
 		{Method: "SETUP", PathSym: "live", Track: "video", Trans: "tcp"},
 		{Method: "PLAY", PathSym: "live"},
 	}},
+	// a refused SETUP announces its own channels; media keeps using what the accepted one negotiated
+	"refused-setup-keeps-channels-play": {Transport: "tcp", End: "close", CheckFrames: true, Steps: []step{
+		{Method: "DESCRIBE", PathSym: "live"},
+		{Method: "SETUP", PathSym: "live", Track: "video", Trans: "tcp"},
+		{Method: "SETUP", PathSym: "live", Track: "video", Trans: "tcp", Mode: "record", ModeText: "mode=record"},
+		{Method: "SETUP", PathSym: "live", Track: "video", Trans: "tcp", Malformed: "badafterinterleaved"},
+		{Method: "PLAY", PathSym: "live"},
+		{Method: "OPTIONS", PathSym: "live"},
+	}},
+	"refused-setup-keeps-channels-record": {Transport: "tcp", End: "close", Steps: []step{
+		{Method: "ANNOUNCE", PathSym: "pub", SDP: "valid"},
+		{Method: "SETUP", PathSym: "pub", Track: "video", Trans: "tcp", Mode: "record", ModeText: "mode=record"},
+		{Method: "SETUP", PathSym: "pub", Track: "video", Trans: "tcp", Mode: "play", ModeText: "mode=play"},
+		{Method: "RECORD", PathSym: "pub"},
+	}},
+	"refused-setup-keeps-channels-wsp": {Transport: "wsp", WSPathSym: "live", WSPData: true, End: "close", CheckFrames: true, Steps: []step{
+		{Method: "DESCRIBE", PathSym: "live"},
+		{Method: "SETUP", PathSym: "live", Track: "video", Trans: "tcp"},
+		{Method: "SETUP", PathSym: "live", Track: "video", Trans: "tcp", Mode: "record", ModeText: "mode=record"},
+		{Method: "PLAY", PathSym: "live"},
+		{Method: "OPTIONS", PathSym: "live"},
+	}},
+	"refused-setup-keeps-port-udp": {Transport: "tcp", End: "close", CheckFrames: true, Steps: []step{
+		{Method: "DESCRIBE", PathSym: "live"},
+		{Method: "SETUP", PathSym: "live", Track: "video", Trans: "udp"},
+		{Method: "SETUP", PathSym: "live", Track: "video", Trans: "udp", Mode: "record", ModeText: "mode=record"},
+		{Method: "PLAY", PathSym: "live"},
+		{Method: "OPTIONS", PathSym: "live"},
+	}},
 	"legal-play-wsp": {Transport: "wsp", WSPathSym: "live", WSPData: true, End: "close", CheckFrames: true, Steps: []step{
 		{Method: "OPTIONS", PathSym: "live"},
 		{Method: "DESCRIBE", PathSym: "live"},
